@@ -96,7 +96,7 @@ class Gen:
             for _ in range(50):
                 d = r.choice(dirs)
                 x = r.random()
-                ext = ".nml" if x < 0.6 else ".xml" if x < 0.72 else ".nml.h5" if x < 0.92 else r.choice([".txt", ".h5", ".nml.hdf5"])
+                ext = ".nml" if x < 0.6 else ".xml" if x < 0.73 else ".nml.h5" if x < 0.96 else r.choice([".txt", ".h5", ".nml.hdf5"])
                 p = d + [r.choice(BASENAMES) + ext]
                 if p not in paths and p not in dirs:
                     break
@@ -136,9 +136,9 @@ class Gen:
             fd = paths[i][:-1]
             incs = [self.href(fd, paths[j], dirs, cwd) for j in outs]
             x = r.random()
-            if x < 0.04:
+            if x < 0.025:
                 incs.insert(r.randrange(len(incs) + 1), {"abs": False, "segs": ["missing.nml"]})
-            elif x < 0.06 and len(dirs) > 1:
+            elif x < 0.04 and len(dirs) > 1:
                 incs.append(self.href(fd, r.choice(dirs[1:]), dirs, cwd, "base"))  # a directory
             if kinds[i] == "xml":
                 files.append({"path": paths[i], "kind": "xml", "comps": self.comps(0, 3), "incs": incs})
@@ -533,6 +533,7 @@ def replay(ck, data):
     if len(res["runs"]) == 2 and (res["runs"][0]["outcome"], res["runs"][0]["lists"]) != (res["runs"][1]["outcome"], res["runs"][1]["lists"]):
         bad.append(("C06:cwd-dependent", "results differ between the two working directories", None, None))
     print(json.dumps({"stored": {k: data.get(k) for k in ("key", "what", "expected", "observed")},
-                      "now": [{"outcome": r["outcome"], "opened": r["loads"], "lists": r["lists"]} for r in res["runs"]],
+                      "now": [{"outcome": r["outcome"], "opened": r["loads"][:12], "files_opened": len(r["loads"]), "lists": r["lists"]}
+                              for r in res["runs"]],
                       "property_failures_now": [b[:2] for b in bad]}, indent=1)[:6000])
     return 1 if bad else 0
